@@ -109,11 +109,12 @@ class Machine(object):
             self.bind[name] = Binding(self.P.fn(name))
         return self.bind[name]
 
-    def evaluate(self, name, st, args=None, depth=0, extra=None):
+    def evaluate(self, name, st, args=None, depth=0, extra=None, region=None, ev_var=None):
         """All outcomes of function `name` from canonical state st (dict over STATE + optional BASEF names) with integer
         parameter values `args` {param: int}.  Returns list of dict(ret=, st=, calls=(...), choices=(...), unknown=why|None)."""
         args = args or {}
-        mk = (name, tuple(sorted((k, v) for k, v in st.items())), tuple(sorted(args.items())), tuple(sorted((str(k), v) for k, v in (extra or {}).items())))
+        mk = (name, tuple(sorted((k, v) for k, v in st.items())), tuple(sorted(args.items())), tuple(sorted((str(k), v) for k, v in (extra or {}).items())),
+              (region[0], id(region[1])) if region else None)
         if mk in self.memo:
             return self.memo[mk]
         if depth > 6:
@@ -121,6 +122,10 @@ class Machine(object):
         P = self.P
         f = P.fn(name)
         b = self.binding(name)
+        if ev_var is not None:
+            # the event is held in a local (e.g. a queue head), not a parameter
+            b = Binding(f)
+            b.ev = ev_var
         env = b.env(st)
         env.update(args)
         if extra:
@@ -180,7 +185,10 @@ class Machine(object):
                 return el.mac[-1]
             return None
 
-        outs = run_all(f, (f.entry, 0), env, lambda el: False, P, hook, max_steps=1500, notable=notable)
+        if region:
+            outs = run_all(f, region[0], env, region[1], P, hook, max_steps=1500, notable=notable, exit_blocks=region[2] if len(region) > 2 else ())
+        else:
+            outs = run_all(f, (f.entry, 0), env, lambda el: False, P, hook, max_steps=1500, notable=notable)
         res = []
         for o in outs:
             if o.kind == "exit" and o.why == "noreturn":
@@ -206,12 +214,12 @@ class Machine(object):
             choices = []
             for k_, v in sorted((k_ for k_ in o.env.items() if isinstance(k_[0], tuple) and len(k_[0]) == 3 and k_[0][0] == "#choices"), key=lambda kv: str(kv[0])):
                 choices.extend(v)
-            res.append({"ret": rv, "st": b.read(o.env, list(st.keys()), st), "calls": tuple(calls), "choices": tuple(choices), "unknown": None,
+            res.append({"ret": rv, "st": b.read(o.env, list(st.keys()), st), "calls": tuple(calls), "choices": tuple(choices), "unknown": None, "kind": o.kind,
                         "env": {k_: o.env.get(k_) for k_ in (extra or {})}})
         # de-duplicate
         seen, out = set(), []
         for r_ in res:
-            k_ = (r_["ret"], tuple(sorted(r_["st"].items())) if r_["st"] else None, r_["calls"], r_["choices"], r_["unknown"], tuple(sorted((str(a), b_) for a, b_ in r_.get("env", {}).items())))
+            k_ = (r_["ret"], tuple(sorted(r_["st"].items())) if r_["st"] else None, r_["calls"], r_["choices"], r_["unknown"], r_.get("kind"), tuple(sorted((str(a), b_) for a, b_ in r_.get("env", {}).items())))
             if k_ not in seen:
                 seen.add(k_)
                 out.append(r_)
